@@ -188,7 +188,7 @@ fn bytes_of(v: &Value) -> Vec<u8> {
 /// Runs `f` over every input line on a thread with the stack of a server
 /// worker (2 MiB), flushing after each line: if the process dies (stack
 /// overflow, abort) the number of complete output lines names the input.
-fn run_on_worker_stack<F>(inp: String, out: String, f: F)
+pub fn run_on_worker_stack<F>(inp: String, out: String, f: F)
 where
     F: Fn(&Value) -> Value + Send + 'static,
 {
